@@ -5,6 +5,7 @@ import (
 	"fmt"
 	"sort"
 	"strings"
+	"syscall"
 	"testing"
 	"verifharness/icose"
 
@@ -415,10 +416,32 @@ var derivedErrs = []derived{
 
 // drawErrTree returns an error value, the set of sentinels reachable from it
 // by construction, a description, and its depth.
+type zeroStructErr struct{}
+
+func (zeroStructErr) Error() string { return "zero struct error" }
+
+type codeErr int
+
+func (c codeErr) Error() string { return fmt.Sprintf("code %d", int(c)) }
+
+type strErr string
+
+func (s strErr) Error() string { return "strErr:" + string(s) }
+
+type arrErr [2]byte
+
+func (a arrErr) Error() string { return fmt.Sprintf("arrErr:%x", a[:]) }
+
 func drawErrTree(t *rapid.T, depth int) (error, map[error]bool, string, int) {
 	leaf := depth >= 4 || rapid.IntRange(0, 2).Draw(t, "leaf") == 0
 	if leaf {
-		switch rapid.IntRange(0, 3).Draw(t, "leafkind") {
+		switch rapid.IntRange(0, 4).Draw(t, "leafkind") {
+		case 4:
+			// error VALUES of non-pointer types, among them the zero value of
+			// their type (a field-less struct, an integer code 0, errno 0, an
+			// empty string type, an all-zero array type)
+			e := rapid.SampledFrom([]error{zeroStructErr{}, codeErr(0), codeErr(7), syscall.Errno(0), syscall.Errno(2), strErr(""), strErr("x"), arrErr{}, arrErr{1}}).Draw(t, "valueerr")
+			return e, map[error]bool{}, fmt.Sprintf("value(%T %v)", e, e == nil), 0
 		case 0:
 			s := rapid.SampledFrom(sentinels).Draw(t, "sentinel")
 			return s, map[error]bool{s: true}, "S(" + s.Error() + ")", 0
@@ -466,7 +489,7 @@ func drawErrTree(t *rapid.T, depth int) (error, map[error]bool, string, int) {
 }
 
 func TestC13_FilterError(t *testing.T) {
-	st := NewStats("C13", "TestC13_FilterError", "rapid: error values built by arbitrary wrapping (leaves: the five sentinels, the six derived errors, fresh look-alike errors with identical text, unrelated errors, nil; wrappers: %w, %v, errors.Join, custom Unwrap, custom Is, opaque). By construction the set of reachable sentinels is known: FilterError returns nil iff e is nil or missing-optional / not-in-profile is reachable, otherwise the very same error value. Non-trivial = >= 1 wrapping layer; distinct = tree shape")
+	st := NewStats("C13", "TestC13_FilterError", "rapid: error values built by arbitrary wrapping (leaves: the five sentinels, the six derived errors, fresh look-alike errors with identical text, unrelated errors, error values of non-pointer types incl. their zero values, nil; wrappers: %w, %v, errors.Join, custom Unwrap, custom Is, opaque). By construction the set of reachable sentinels is known: FilterError returns nil iff e is nil or missing-optional / not-in-profile is reachable, otherwise the very same error value. Non-trivial = >= 1 wrapping layer; distinct = tree shape")
 	st.Require = []string{"filtered", "kept", "nil", "lookalike"}
 	defer st.Flush(t)
 	rapid.Check(t, func(t *rapid.T) {
